@@ -281,7 +281,7 @@ Title=\"{}\"
                                     '{:X}'.format(int(mux_signal.calc_max()))
                                 )
                                 s = '{:0{}X}h'.format(i, length)
-                            if not signal.is_little_endian:
+                            if not mux_signal.is_little_endian:
                                 # Motorola
                                 mux_out += " %d,%d %s -m" % (start_bit, mux_signal.size, s)
                             else:
@@ -496,7 +496,8 @@ def load(f, **options):  # type: (typing.IO, **typing.Any) -> canmatrix.CanMatri
                                 line=line,
                             )
                         frame.mux_names[multiplexor] = sig_name
-                        index_offset = 2
+                        # switches (-m, ...) follow the selector value: name, start/size, value, switches
+                        index_offset = 1
 
                     for switch in temp_array[index_offset + 2:]:
                         if switch == "-m":
